@@ -190,9 +190,15 @@ pub fn add_roots(m: &mut walrus::Module, seed: u64) -> String {
         let results: &[walrus::ValType] = if rng.bool() { &[walrus::ValType::I32, walrus::ValType::I64] } else { &[walrus::ValType::F64, walrus::ValType::I32, walrus::ValType::I32] };
         // (with a parameter, so that the signature of the entry sequence is not the function's own)
         let param = m.locals.add(walrus::ValType::I32);
+        // a block typed by the id of a type that has no parameters and one result (nothing else refers to that type)
+        let t_one = m.types.add(&[], &[walrus::ValType::F32]);
         let mut fb = walrus::FunctionBuilder::new(&mut m.types, &[walrus::ValType::I32], results);
         {
             let mut b = fb.func_body();
+            b.block(t_one, |bb| {
+                bb.f32_const(2.5);
+            });
+            b.drop();
             for r in results {
                 match r {
                     walrus::ValType::I32 => b.i32_const(11),
